@@ -18,7 +18,7 @@ def both (gs : List Group) (code : List Nat) (l : Nat) : Str :=
 def handle : List Str → Str
   | op :: rest =>
     -- source text and the generator's intent are for the real loader and the oracle only
-    if op = str "src" || op = str "want" || op = str "wantpkg" then str "ok"
+    if op = str "src" || op = str "want" || op = str "wantpkg" || op = str "importer" then str "ok"
     else match rest with
       | [groups, code, lines] =>
         let gs := parseGroups groups
